@@ -123,7 +123,7 @@ def run(chk):
         m = e.module(MOD)
         EI, OP = it.lookup_global(m, "EmulatorInstance"), it.lookup_global(m, "_Options")
         sim = SObj(ClassVal("Simulator", builtin=True), {"random_seed": SInt(z3.Int("sim_seed"))})
-        vals = {"_simulator": sim, "_runtime": SObj(ClassVal("Runtime", builtin=True), {}), "_error_model": SObj(ClassVal("ErrorModel", builtin=True), {}),
+        vals = {"_simulator": sim, "_runtime": SObj(ClassVal("Runtime", builtin=True), {}), "_error_model": SObj(ClassVal("ErrorModel", builtin=True), {"random_seed": SInt(z3.Int("em_seed"))}),
                 "_shots": SInt(z3.Int("o_shots")), "_shot_increment": SInt(z3.Int("o_inc")), "_shot_offset": SInt(z3.Int("o_off")),
                 "_seed": SInt(z3.Int("o_seed")), "_verbose": SBool(z3.Bool("o_verbose")), "_timeout": SObj(ClassVal("timedelta", builtin=True), {}),
                 "_n_processes": SInt(z3.Int("o_np")), "_event_hook": SObj(ClassVal("EventHook", builtin=True), {}),
@@ -178,6 +178,10 @@ def run(chk):
                     if (exclude and hit) or (only and not hit):
                         continue
                     conj.append(same(o.fields.get(k), v0) if k in o.fields else z3.BoolVal(False))
+                if not only:
+                    # no attribute is ADDED to an object reachable from self either
+                    for oid, o in g["objs0"].items():
+                        conj.append(z3.BoolVal({k for k in o.fields} == {k for (oid2, k) in g["snap0"] if oid2 == oid}))
                 return z3.And(*conj) if conj else z3.BoolVal(True)
             return f
         fq = f"{MOD}:EmulatorInstance.{name}"
